@@ -279,10 +279,10 @@ func (l *lexer) skipTo(s string) bool {
 	return false
 }
 
-// updateCursor moves the cursor forward n bytes.  updateCursor does not
-// correctly handle tabs.  This is okay as it is only used by skipTo, and skipTo
-// is never used to skip to an initial " (which is the only time that tcol is
-// necessary, as per YANG's multi-line quoted string requirement).
+// updateCursor moves the cursor forward n bytes, keeping line, col and the
+// tab-expanded column tcol in step (a comment may precede the opening " of a
+// multi-line string on the same line, and tcol is the column its continuation
+// lines are stripped to).
 func (l *lexer) updateCursor(n int) {
 	s := l.input[l.pos : l.pos+n]
 	l.pos += n
@@ -295,6 +295,16 @@ func (l *lexer) updateCursor(n int) {
 		l.col = 0
 	}
 	l.col += utf8.RuneCountInString(s[strings.LastIndex(s, "\n")+1:])
+	for _, r := range s {
+		switch r {
+		case '\n':
+			l.tcol = 0
+		case '\t':
+			l.tcol = (l.tcol + 8) & ^7
+		default:
+			l.tcol++
+		}
+	}
 }
 
 // Errorf writes an error on l.errout and increments the error count.
